@@ -140,6 +140,8 @@ type Monitor struct {
 	WireHashes [][]byte
 	Exchanges  int
 	swFlag     [2]bool
+	// GCMCarries counts carries out of the low 32 bits of the GCM invocation counter.
+	GCMCarries int
 	// HostKeys / Signatures: K_S and the signature blob of each exchange as seen on the wire.
 	HostKeys   [][]byte
 	Signatures [][]byte
@@ -413,6 +415,9 @@ func (m *Monitor) stepGCM(dir int) bool {
 	// increment the 64-bit invocation counter
 	ctr := binary.BigEndian.Uint64(d.gcmIV[4:])
 	binary.BigEndian.PutUint64(d.gcmIV[4:], ctr+1)
+	if uint32(ctr+1) == 0 {
+		m.GCMCarries++
+	}
 	d.buf = d.buf[4+l+16:]
 	payload, pad, ok := m.checkBody(dir, body, l, l, d.cipherName)
 	if !ok {
